@@ -47,6 +47,7 @@ CFGS = {
     "rxn": {"threshold": 0, "col": "rxn"},
     # two thresholds on opposite sides of the confidence of reaction A that agree in their
     # first three decimals (filled in lazily from the observed confidence)
+    "t0ns": {"threshold": 0, "col": "reaction", "nostats": True},   # the caller passes no stats dict
     "tc": {"threshold": None, "col": "reaction", "offset": 0.0},
     "tc+": {"threshold": None, "col": "reaction", "offset": 0.0004},
 }
@@ -76,7 +77,7 @@ def run_ops(tier):
     for c in ("t0", "rxn", "t.5"):
         for bs in (None, 1):
             ops.append(("run", c, "2col", bs))
-    for c in ("tc", "tc+"):
+    for c in ("tc", "tc+", "t0ns"):
         for i in ("A", "AB"):
             for bs in (None, 1):
                 ops.append(("run", c, i, bs))
@@ -332,7 +333,7 @@ def execute(state, op, want_log=False):
         with recording(cdir) as rec:
             try:
                 with contextlib.redirect_stderr(sink), contextlib.redirect_stdout(sink):
-                    rows = b.rebalance(_input(inp), output_dict=True, stats=stats, batch_size=bs)
+                    rows = b.rebalance(_input(inp), output_dict=True, stats=None if cfg.get("nostats") else stats, batch_size=bs)
             except Exception as e:
                 raised = "{}: {}".format(type(e).__name__, str(e)[:120])
         new = {}
@@ -368,7 +369,7 @@ def reference(op):
         stats = {}
         sink = io.StringIO()
         with contextlib.redirect_stderr(sink), contextlib.redirect_stdout(sink):
-            rows = b.rebalance(_input(inp), output_dict=True, stats=stats, batch_size=bs)
+            rows = b.rebalance(_input(inp), output_dict=True, stats=None if cfg.get("nostats") else stats, batch_size=bs)
         _REF[k] = {"rows": [pipeline.norm_row(r) for r in rows], "stats": {k2: pipeline.norm_value(v) for k2, v in stats.items()},
                    "raised": None}
     return _REF[k]
@@ -496,7 +497,7 @@ def run(tier, seed):
         "distinct_nontrivial": len(seen),
         "rule": "BFS over cache-directory contents: all crash-free histories of <= 3 runs over {} run operations "
                 "(3 thresholds x 4 inputs x batch sizes None/1/2, two thresholds 0.0004 apart on either side of an observed "
-                "confidence, two-column rows under two column configurations); crashes: every run from the empty cache{} killed after every prefix of its recorded "
+                "confidence, runs without a stats argument, two-column rows under two column configurations); crashes: every run from the empty cache{} killed after every prefix of its recorded "
                 "file effects and, inside each written file, at every {} byte plus the first/last 3 bytes{}; each crash "
                 "state is followed by every run operation{}.  Every run transition executes the real rebalance and "
                 "is compared with the uncached run.".format(
